@@ -83,3 +83,13 @@ Theorem C15_weights_normalised : forall kids,
   ~ fold_right (fun k acc => node_p k + acc) 0 kids == 0 -> fold_right Qplus 0 (weights kids) == 1.
 Proof. exact weights_sum. Qed.
 Print Assumptions C15_weights_normalised.
+
+(* forced application reaches a leaf through EVERY chain of choice operators: a tree built from OneOf (non-empty),
+   OneOrOther and leaves, once selected by its parent (force_apply), applies exactly one leaf -- whatever probabilities
+   are written on its operators and leaves, for every depth and every draw list *)
+From DV.proofs Require Import FwForced.
+Theorem C15_selected_choice_tree_applies_exactly_one_leaf : forall data sem t,
+  choice_only t = true ->
+  forall (d : data) ds d' tr ds', run data sem t true d ds = Some (d', tr, ds') -> length tr = 1%nat.
+Proof. exact forced_choice_fires_one. Qed.
+Print Assumptions C15_selected_choice_tree_applies_exactly_one_leaf.
